@@ -59,6 +59,7 @@ def main(argv):
                                 capture_output=True, text=True)
             if ap.returncode != 0:
                 rows.append((item["name"], "PATCH-DOES-NOT-APPLY", ap.stderr.strip()[:200]))
+                print("%-40s %-40s %s" % rows[-1], flush=True)
                 bad += 1
                 continue
             tres = ""
@@ -77,12 +78,11 @@ def main(argv):
                 first = [l for l in r.stdout.splitlines() if l.startswith("counterexample")][:1]
                 rows.append((item["name"], pid + " " + status + tres,
                              "%.0fs %s" % (time.time() - t0, (first or [""])[0][:160])))
+                print("%-40s %-40s %s" % rows[-1], flush=True)
         finally:
             subprocess.run(["git", "-C", "/repo", "worktree", "remove", "--force", wt], capture_output=True)
             shutil.rmtree(tmp, ignore_errors=True)
             subprocess.run(["git", "-C", "/repo", "worktree", "prune"], capture_output=True)
-    for r in rows:
-        print("%-40s %-40s %s" % r)
     print("selftest: %d entries, %d not caught" % (len(rows), bad))
     return 1 if bad else 0
 
